@@ -117,12 +117,14 @@ impl<'a> Game<'a> {
 /// starting move numbers: mostly small, sometimes just below a power of two or very large (a parsed
 /// position may carry any move number; C03 / C19 speak about games of any length)
 pub fn start_move_number(rng: &mut Rng) -> usize {
-    match rng.below(12) {
+    match rng.below(14) {
         0 => 120 + rng.below(16),
         1 => 245 + rng.below(14),
         2 => 65526 + rng.below(14),
         3 => 1_000_000 + rng.below(1000),
-        4 => 2_147_480_000 + rng.below(3000),
+        4 => 2_147_480_000 + rng.below(6000),
+        5 => (1usize << 63) - 3 + rng.below(6),
+        6 => usize::MAX - 2000 + rng.below(1000),
         _ => 1 + rng.below(60),
     }
 }
